@@ -148,25 +148,12 @@ func ruleOU15(c *Ctx) {
 	c.check(nBad == 0, "<module>", "stdin-read-once", "-", fmt.Sprintf("%d function(s) read os.Stdin; no call that reaches them sits in a loop or follows another on one path", len(readers)), "see the individual sites")
 }
 
-// cobraHandlers: the module functions stored into a func-typed field of a cobra.Command (Run, RunE, PreRunE, ...).
+// cobraHandlers: the module functions stored into a func-typed field of a cobra.Command (Run, RunE, PreRunE, ...),
+// directly or through a table of command specifications.
 func (c *Ctx) cobraHandlers() map[*ssa.Function]bool {
 	out := map[*ssa.Function]bool{}
-	for _, f := range c.Fns {
-		eachInstr(f, func(r instrRef) {
-			st, ok := r.In.(*ssa.Store)
-			if !ok {
-				return
-			}
-			fa, ok := st.Addr.(*ssa.FieldAddr)
-			if !ok || !strings.HasSuffix(namedTypeName(fa.X.Type()), "cobra.Command") {
-				return
-			}
-			for _, g := range funcValuesOf(st.Val, 0) {
-				if c.InModule(g) {
-					out[g] = true
-				}
-			}
-		})
+	for _, r := range c.cobraRegistrations() {
+		out[r.Fn] = true
 	}
 	return out
 }
